@@ -43,7 +43,7 @@ type Chain struct {
 
 var (
 	Handlers = []string{"", "rethrow", "swallow", "replace", "fin", "rethrow+fin", "swallow+fin", "replace+fin", "finret", "finreplace"}
-	Vias     = []string{"call", "new", "apply", "bind", "map", "getter", "jsproxy", "forofnext", "forofbody", "gen", "eval", "promise"}
+	Vias     = []string{"call", "new", "apply", "bind", "map", "getter", "jsproxy", "forofnext", "forofbody", "gen", "eval", "promise", "destruct", "spread"}
 	Entries  = []string{"fc", "fcr", "refl", "reflerr", "reflerr1", "method", "ctor", "ctorr", "pxget", "dynget", "getter"}
 	Exits    = []string{"callable", "construct", "expfn", "expfnerr", "get", "tryget", "forofnext", "forofstep", "tryforofnext", "tryforofstep", "run", "rtnew"}
 	Behavs   = []string{"rethrow", "rethrowval", "reterr", "wraperr", "swallow", "swallowall", "replaceval", "replaceerr", "newgoerr"}
